@@ -403,7 +403,9 @@ class DropRows(Filter[Iterable[Union[Dense,Sparse]], Iterable[Union[Dense,Sparse
     def make_drop_row_args(first, drop_cols) -> Tuple:
         if isinstance(first,Dense):
             try:
-                selects = [ not any(i in drop_cols for i in I) for I in enumerate(first.headers) ]
+                #a header map need not be written in column order
+                names   = {i:h for h,i in first.headers.items()}
+                selects = [ not (i in drop_cols or (i in names and names[i] in drop_cols)) for i in range(len(first)) ]
                 headers = first.headers.items()
                 indexes = list(compress(range(len(first)), selects))
             except:
